@@ -519,3 +519,113 @@ Proof.
   destruct (compress_sound n origin canon file t file' t' labels TS V F H) as (em & n' & Ef & TS' & FW & R & N).
   exists em, n'. split; [exact Ef|]. split; [apply TableSound_to_W; assumption|]. auto.
 Qed.
+
+(* ------------------------------------------------------------------ *)
+(* Name.to_wire without a file: the encoding of the name made absolute with the origin, never
+   longer than 255 octets, and it decodes to exactly those labels.       *)
+
+Lemma Valid_relative_nonempty (n : name) : Valid n -> is_absolute n = false -> Forall (fun l => l <> []) n.
+Proof.
+  intros (_ & _ & V3) A. destruct n as [|l n] using rev_ind; [constructor|].
+  rewrite removelast_last in V3. apply Forall_app. split; [exact V3|].
+  rewrite is_absolute_last in A. constructor; [|constructor]. destruct l; [discriminate|discriminate].
+Qed.
+
+Lemma Valid_app_abs (n o : name) :
+  Valid n -> Valid o -> is_absolute n = false -> is_absolute o = true ->
+  wire_length n + wire_length o <= 255 -> Valid (n ++ o).
+Proof.
+  intros Vn Vo An Ao L. pose proof (Valid_relative_nonempty n Vn An) as NE.
+  destruct Vn as (N1 & _ & _). destruct Vo as (O1 & _ & O3).
+  repeat split.
+  - apply Forall_app. split; assumption.
+  - rewrite wire_length_app. exact L.
+  - destruct o as [|x o]; [discriminate|]. rewrite removelast_app_cons. apply Forall_app. split; assumption.
+Qed.
+
+Theorem to_wire_spec n origin canon w :
+  Valid n -> (forall o, origin = Some o -> Valid o) ->
+  to_wire n origin canon = Ok w ->
+  exists labels, full_name n origin = Ok labels /\ w = wire_labels canon labels /\
+                 Z.of_nat (length w) <= 255.
+Proof.
+  intros Vn Vo. unfold to_wire, full_name. destruct (is_absolute n) eqn:An.
+  - intros H; inversion H; subst. exists n. split; [reflexivity|]. split; [reflexivity|].
+    rewrite wire_labels_length. destruct Vn as (_ & L & _). exact L.
+  - destruct origin as [o|]; [|discriminate]. destruct (is_absolute o) eqn:Ao; [|discriminate].
+    destruct (wire_length n + wire_length o >? 255) eqn:L; [discriminate|].
+    intros H; inversion H; subst. exists (n ++ o).
+    assert (Valid (n ++ o)) as V by (apply Valid_app_abs; auto; lia).
+    split; [apply mk_name_valid, V|]. split; [rewrite wire_labels_app; reflexivity|].
+    rewrite <- wire_labels_app, wire_labels_length. destruct V as (_ & L' & _). exact L'.
+Qed.
+
+Theorem to_wire_roundtrip n origin w pre post :
+  Valid n -> (forall o, origin = Some o -> Valid o) ->
+  to_wire n origin false = Ok w ->
+  exists labels, full_name n origin = Ok labels /\
+    from_wire (pre ++ w ++ post) (length pre) = Ok (labels, length w).
+Proof.
+  intros Vn Vo H. destruct (to_wire_spec _ _ _ _ Vn Vo H) as (labels & F & -> & _).
+  exists labels. split; [exact F|].
+  destruct (full_name_valid _ _ _ Vn F) as [Vl Al].
+  apply (wire_roundtrip labels pre post Vl Al).
+Qed.
+
+(* ------------------------------------------------------------------ *)
+(* A whole sequence of names written through one table (as a message renderer does): the
+   invariant composes, and every name stays decodable in the final message.            *)
+
+Lemma compress_sound_dec n origin canon file t file' t' labels :
+  TableSound file t -> Valid n -> full_name n origin = Ok labels ->
+  to_wire_compress n origin canon file t = Ok (file', t') ->
+  exists em ls,
+    file' = file ++ em /\ TableSound file' t' /\
+    Dec file' (length file) (length file) ls (length file') /\ ci_equal ls labels.
+Proof.
+  intros TS V F H. rewrite to_wire_compress_unfold, F in H. cbn [bind] in H. inversion H as [L].
+  destruct (full_name_valid _ _ _ V F) as [Vl Al].
+  rewrite <- (app_nil_r t) in L.
+  destruct (tw_loop_sound canon ci_equal) with (labels := labels) (file := file) (t := t) (pend := @nil (name * Z))
+       (b := length file) (file' := file') (t' := t')
+    as (em & new & ls & Ef & Et & D & R & Fnew); auto.
+  - reflexivity.
+  - apply ci_RN_cons.
+  - intros a b c H1 H2. unfold ci_equal in *. congruence.
+  - intros k v I p s E Eq. apply name_eqb_iff_ci. exact Eq.
+  - intros k v I. destruct (TS k v I) as (_ & ls0 & h0 & D0 & _). apply Dec_bounds in D0. lia.
+  - intros k v [].
+  - exists em, ls. split; [exact Ef|]. split; [|split; assumption].
+    intros k v I. rewrite Et, app_nil_r in I. apply in_app_or in I. destruct I as [I|I].
+    + destruct (TS k v I) as (Hv & ls0 & h0 & D0 & R0). split; [exact Hv|].
+      exists ls0, h0. split; [rewrite Ef; apply Dec_app; exact D0|exact R0].
+    + rewrite Forall_forall in Fnew. destruct (Fnew _ I) as (Hv & _ & ls0 & h0 & D0 & R0).
+      split; [exact Hv|]. exists ls0, h0. auto.
+Qed.
+
+Theorem write_names_sound origin : forall ns file t file' t',
+  TableSound file t -> Forall Valid ns ->
+  write_names ns origin file t = Ok (file', t') ->
+  exists em offs,
+    file' = file ++ em /\ TableSound file' t' /\
+    Forall2 (fun n off =>
+               exists labels n' c, full_name n origin = Ok labels /\
+                 from_wire file' off = Ok (n', c) /\ ci_equal n' labels) ns offs.
+Proof.
+  induction ns as [|n ns IH]; intros file t file' t' TS V H.
+  - cbn in H. inversion H; subst. exists [], []. rewrite app_nil_r. split; [reflexivity|]. split; [exact TS|constructor].
+  - cbn [write_names] in H. inversion V as [|? ? Vn Vns]; subst.
+    destruct (to_wire_compress n origin false file t) as [[f1 t1]| |] eqn:E; cbn [bind] in H; try discriminate.
+    cbn [fst snd] in H.
+    assert (exists labels, full_name n origin = Ok labels) as [labels F].
+    { rewrite to_wire_compress_unfold in E. destruct (full_name n origin); cbn [bind] in E; try discriminate. eauto. }
+    destruct (compress_sound_dec _ _ _ _ _ _ _ _ TS Vn F E) as (em1 & ls & Ef1 & TS1 & D & R).
+    destruct (IH f1 t1 file' t' TS1 Vns H) as (em2 & offs & Ef & TS' & FA).
+    exists (em1 ++ em2), (length file :: offs).
+    split; [rewrite Ef, Ef1, app_assoc; reflexivity|]. split; [exact TS'|].
+    constructor; [|exact FA].
+    destruct (full_name_valid _ _ _ Vn F) as [Vl _].
+    exists labels, ls, (length f1 - length file)%nat. split; [exact F|]. split; [|exact R].
+    rewrite Ef. apply Dec_from_wire; [apply Dec_app; exact D|].
+    eapply Valid_ci; [symmetry; exact R|exact Vl].
+Qed.
